@@ -105,3 +105,17 @@ Check C11_anchor_isolation : forall s,
   /\ lv_budget s' = lv_budget s /\ lv_limits s' = lv_limits s /\ lv_look s' = lv_look s
   /\ lv_produced_any s' = lv_produced_any s.
 Print Assumptions C11_anchor_isolation.
+
+(* ... and an error that is not the scanner's own -- a budget breach raised by the start of a second document,
+   an I/O failure -- met while probing for further content is returned: only syntax errors count as "trailing
+   garbage" after a document end (F58). *)
+Theorem C11_single_never_drops_a_non_syntax_error : forall fuel o t items v s r op e s' r',
+  deser fuel (eo_cfg o) false t (SLive (live_new (eo_budget o) false (eo_limits o) false) items 0) = DOk v (SLive s r op) ->
+  live_peek s r = Fail e s' r' -> is_syntax_err e = false ->
+  from_str_model fuel o t items = OErr e.
+Proof. exact single_never_drops_a_non_syntax_error. Qed.
+Check C11_single_never_drops_a_non_syntax_error : forall fuel o t items v s r op e s' r',
+  deser fuel (eo_cfg o) false t (SLive (live_new (eo_budget o) false (eo_limits o) false) items 0) = DOk v (SLive s r op) ->
+  live_peek s r = Fail e s' r' -> is_syntax_err e = false ->
+  from_str_model fuel o t items = OErr e.
+Print Assumptions C11_single_never_drops_a_non_syntax_error.
